@@ -2,6 +2,7 @@ import MW.Staking.Facts
 import MW.Inv.ReqHistory
 import MW.Inv.Demo
 import MW.Chain.Dispatch
+import MW.Staking.Interface
 /-!
 # C05 — Pro-rata, at-most-once withdrawal of unbonded tokens
 
@@ -338,5 +339,15 @@ end Demo
 
 /-- arithmetic of the demo: 1000 received for a batch of 300 with requests 100 and 200 pays 333 and 666 -/
 example : 1000 * 100 / 300 = 333 ∧ 1000 * 200 / 300 = 666 ∧ 333 + 666 ≤ 1000 := by decide
+
+/-- the statements of this file quantify over every message the staking contract accepts: the `ExecuteMsg` the source
+declares (table regenerated from /repo's `msg.rs` on every run) has exactly the variants, fields and types of the
+model's `ExecMsg`, and the contract exports exactly the modelled entry points.  A message or entry point added to the
+source — which no generated history would exercise — breaks this theorem -/
+theorem messages_are_the_modelled_ones :
+    MW.Generated.Interface.staking_execute = MW.Interface.model_staking_execute
+    ∧ (∀ m : MW.Staking.ExecMsg, MW.Interface.execTag m ∈ MW.Interface.names MW.Generated.Interface.staking_execute)
+    ∧ MW.Generated.Interface.staking_entry_points = ["execute", "instantiate", "migrate", "query", "reply", "sudo"] :=
+  ⟨MW.Interface.staking_execute_eq, MW.Interface.staking_execute_covered.2, MW.Interface.staking_entry_points_eq⟩
 
 end MW.Props.C05
